@@ -99,6 +99,18 @@ def bodies(tier):
                 for term in (True, False):
                     out.append({"name": f"{combo}/{style}/{'T' if term else 'noT'}", "chunks": chunks,
                                 "style": style, "term": term, "mode": "chunked"})
+    # chunk DATA that looks like chunk framing (a last-chunk marker, a size line, bare CR / LF) at
+    # the end of a chunk, and a chunk larger than small receive buffers
+    for chunks in ([b"0\r\n", b"abc"], [b"x0\r\n", b"y", b"z0\r\n"], [b"0\r\n\r\n", b"tail"], [b"a\r", b"\nb"],
+                   [b"5\r\nhello", b"\r\n"], [b"\r\n", b"\r\n0\r\n", b"q"], [PATTERN * 2 + b"\r", b"end"]):
+        for term in (True, False):
+            out.append({"name": f"framing-like/{[len(c) for c in chunks]}/{'T' if term else 'noT'}",
+                        "chunks": chunks, "style": "lower", "term": term, "mode": "chunked"})
+    # one large, repetitive body per compression (decoded size beyond 16 KiB, repeats reaching far back)
+    big = b"".join(bytes((i * 7 + j) & 0xFF for j in range(300)) for i in range(3)) * 40
+    for mode in ("gzip", "compress", "deflate"):
+        out.append({"name": f"{mode}/big{len(big)}", "chunks": [big, b"tail"], "style": "lower", "term": True,
+                    "mode": mode, "nobfs": True})
     for mode in ("gzip", "compress", "deflate"):
         for chunks in ([b"hello world"], [b"ab", b"\r\n0\r\n\r\n"], [b"x" * 40, b"y", b"zz"],
                        [b"abc", b"", b"def"], [b"", b"tail"], [b"0", b"", b"", b"0\r\n"]):
@@ -120,14 +132,23 @@ def drain(wire, script, encoding, bufsize):
     sock = FakeSock(wire, script=list(script))
     wrap = SocketWrapper(sock, encoding=encoding, bufsize=bufsize)
     got = bytearray()
-    for _ in range(4 * len(wire) + 16):
-        b = wrap.read(1)
+    gulp, idle = 1, 0
+    for _ in range(4 * len(wire) + 16 + 300000):
+        # highly compressed bodies decode to tens of kilobytes: take them in large reads while
+        # that much is buffered, and byte by byte otherwise (a read larger than what is left
+        # returns nothing at the end of the stream)
+        gulp = 1009 if wrap.in_waiting() >= 4096 else 1
+        b = wrap.read(gulp)
         if not b:
             if sock.pos >= len(wire) and sock.closed_seen:
                 break
             if sock.pos >= len(wire):
+                idle += 1
+                if idle > 4:  # a wrapper that has stopped polling the socket will not start again
+                    break
                 continue
             break
+        idle = 0
         got += b
     return bytes(got)
 
